@@ -116,7 +116,9 @@ CHECKS = {
         "right-hand side holds each junction's components at its own row pair and zero elsewhere, all zero in static mode. Per run: every "
         "velocity of every end point at every frame and the placed right-hand side compared with the model (1e-12 / exactly) and with an "
         "independent finite difference from the known successor table; the adimensional divisor and get_system_velocity_per_frame against the "
-        "mean junction speed (this clause needs sqrt and is decided by the oracle, not a theorem).",
+        "mean junction speed (this clause needs sqrt and is decided by the oracle, not a theorem). Numbering (Props/C13relabel.lean): for per-frame "
+        "injective renamings of a series the model's velocity of a physical vertex, the placed right-hand side and the whole dynamic system are "
+        "unchanged (calculateVelocity_relabel, velocityRhs_relabel, dynamic_system_relabel); the multi-step id walk is invariant when every step has a map.",
    design_ref="DESIGN.md §7 C13",
    technique="Lean 4 theorems over Rat model of calculate_velocity and row placement + differential check",
    note=BASE_NOTE),
@@ -219,7 +221,9 @@ CHECKS = {
         "augmented matrix every minimiser over the non-negative candidates is true tension / mean with zero multiplier. End to end in the model "
         "(Props/C01matrix.lean): the matrix _build_matrix assembles, applied to the true tensions, is zero whenever the stored tangents are the "
         "true ones and the tissue is in balance (assembled_balance), and then any minimiser of the augmented residual is tension/mean "
-        "(static_inference_recovers_tensions; hypotheses instantiated on an exact lens tissue). Per run: Maxwell / "
+        "(static_inference_recovers_tensions; hypotheses instantiated on an exact lens tissue). Tissue level (Props/C01tissue.lean): the tangent "
+        "hypotheses follow for every tissue of exact arcs / two-point segments on which the code's sign rule agrees with the geometry "
+        "(ArcTissue, SignsAgree: decidable; arcTissue_static_inference), and SignsAgree is necessary (the D2 witness). Per run: Maxwell / "
         "Moebius tissues at random poses and samplings, optional generate_mesh(ne=2..12), all back-ends, both fits: reported tensions against "
         "truth within a conditioning-scaled tolerance on well-posed systems; the matrix against the Lean model and the solution's exact "
         "certificate on the very systems solved. Float rounding is outside the theorems (partial in that sense). D2 cases are known findings.",
@@ -262,7 +266,11 @@ CHECKS = {
         "End to end for vertex renumbering (Props/C07matrix.lean): for every injective renaming of vertex ids the model's interface list, angle-limited "
         "set, coefficient rows and assembled matrix are the renamed / identical ones (build_mapV, normalisedMatrix_mapV: the solver input is "
         "literally unchanged), and permuting columns and junction rows leaves the augmented residual at the permuted candidate unchanged "
-        "(residSq_relabel). Renumbering of mesh-edge and cell ids and the effect of dictionary order on the interface list are decided by this run, not by a theorem.",
+        "(residSq_relabel). Storage order (Props/C07order.lean): rotating or reversing a stored cell cycle or re-ordering the cell dictionary changes the "
+        "model's interface list only by a permutation with reversals (bigEdgesList_rotateCell/_reverseCell/_permuteCells), a reversed interface gets the "
+        "same coefficient (entryOf_rev), and the augmented residual at corresponding candidates is equal (residSq_storage_variants; no angle limit; centres "
+        "re-aligned by position as an explicit hypothesis); vertex / mesh-edge dictionary order does not enter at all. Renumbering of mesh-edge and cell ids "
+        "and the angle-limited case are decided by this run, not by a theorem.",
    design_ref="DESIGN.md §7 C07",
    technique="Lean 4 permutation/reversal theorems over the cycle-split model + metamorphic differential check",
    note=BASE_NOTE),
